@@ -1,6 +1,7 @@
 CONSTANTS Types = {"bool", "e3", "opt", "int"}
 Rows = 2
 Depth = 1
+Dense = FALSE
 WithAlts = TRUE
 INIT Init
 NEXT Next
